@@ -6,22 +6,28 @@ any bulk-built tree, looking up a key returns exactly its current offset (or not
 yields exactly the current keys in order, range fraction estimates are between 0 and 1, and every
 tree node respects the ordering and size invariants."
 
-LEVEL: specification side only (partial). The Lean model (`Gsu/Model/Btree.lean`, executed by
-`drv_c10`) is the CONTENT of a tree — the strictly sorted list of (key, offset) that iteration
-yields — with the map-level effect of `MergeAndSave` (`state.modify`: insert asserts absent,
-update/delete assert present) and the greedy bottom-up chunking of the bulk `Builder`.
-The theorems say this content behaves as an ordered map under batches and that bulk build keeps
-the input sequence. NOT modelled, hence not proved (tied to the code only by the correspondence
-run and the direct oracles Lookup / iteration both ways / Check() / RangeFrac ∈ [0,1]):
-  * FULL `tree_inv` preserved by `mergeBatch` with node split at `splitCount`/`maxNodeSize` and
-    empty-node removal, separators bounding children, `lookup` by descent = `toMap` lookup;
-  * `leaf_codec_roundtrip` (prefix compressed leaf layout);
-  * `rangeFrac_bounds` (no model of `rangeFrac`; the direct oracle checks 0 ≤ f ≤ 1 and found a
-    violation on the unchanged code, see findings/C10.md).
+LEVEL: proof about executable models of the STRUCTURE of the btree, above and at the byte level
+of leaf nodes. Four models, all executed by `drv_c10` against the real code:
+  * `Model/Btree.lean` — the CONTENT of a tree (strictly sorted (key, offset) list) with the
+    map-level effect of `MergeAndSave` (`state.modify`'s asserts);
+  * `Model/BtreeTree.lean` — the abstract B+-tree (leaves with their stored prefix length, tree
+    nodes = children with separators, uniform height), `Lookup` by descent, and the bulk `Builder`
+    (leaf packing by count and byte size, `Builder.sep`, `addTree`, `Finish`);
+  * `Model/BtreeMerge.lean` — `MergeAndSave` on the abstract tree: descent, `state.modify` with the
+    exact prefix bookkeeping of `leafNode.insert/delete`, `split` at `nkeys/2` with the code's
+    separators, `dropLeaf` with empty-node removal and root popping;
+  * `Model/BtreeCodec.lean` — the prefix-compressed leaf node byte layout.
+Proved: `tree_inv_bulk`, `lookup_bulk`, `lookup_descent`, `bulk_build_content`, `tree_sem`,
+`tree_inv_merge`, `leaf_codec_roundtrip` (+ the older leaf-packing theorems).
+NOT proved / not modelled: the byte-SIZE limit after merges (false of the code: KF-C10-2, KF-C10-4
+stay open findings; `tree_inv_merge` therefore has the count clauses only), the tree-node byte
+codec, path copying / which nodes are rewritten, the float arithmetic of `RangeFrac`
+(see `rangeFrac_*` below for what is modelled).
 -/
 import Gsu.Proofs.Btree
 import Gsu.Proofs.BtreeBulk2
 import Gsu.Proofs.BtreeCodec
+import Gsu.Proofs.BtreeMerge4
 import Gsu.Model.BtreeLeaf
 import Gsu.Gen.Btree
 namespace Gsu.Props.C10
@@ -87,6 +93,54 @@ theorem leaf_codec_roundtrip (l : Leaf) (hn : l.es.length < 256) (hpre : l.PreOK
   ⟨(leaf_roundtrip l hn hpre hoff hsz).1, (leaf_roundtrip l hn hpre hoff hsz).2,
     encodeLeaf_length l hpre⟩
 
+/-- tree_sem: `MergeAndSave` of a batch on a tree that satisfies the ordering invariant
+(`BTree.Bounded`; established by `tree_inv_bulk`, kept by this theorem) — descent to the leaf,
+insert / update / delete there, node splits at `nkeys/2`, removal of emptied nodes, root growth and
+root popping — has on the CONTENT exactly the effect of the batch on the ordered map
+(`applyBatch`, cf. `tree_sem_partial` for what that is), the new tree is ordered again, and
+`Lookup` by descent in the new tree is the abstract map after the entries in order. -/
+theorem tree_sem (split : Nat) (t t' : BTree) (b : List (Key × Op × Nat)) (hb : t.Bounded)
+    (h : t.mergeBatch split b = some t') :
+    applyBatch t.toList b = some t'.toList ∧ t'.Bounded ∧
+      ∀ x, t'.lookup x = specBatch t.lookup b x := by
+  obtain ⟨hc, hb'⟩ := (mergeBatch_spec split b t hb).1 t' h
+  refine ⟨hc, hb', fun x => ?_⟩
+  rw [lookup_descent t' hb' x,
+    (applyBatch_spec (BT_Bounded_sorted t.h none none t.root hb) hc).2 x]
+  exact specBatch_congr (fun y => (lookup_descent t hb y).symm) b x
+
+/-- a batch with an entry whose Go assert fails (insert of a present key, update/delete of an
+absent one — `applyBatch` refuses it, `batch_entry_accepted_iff`) is refused by the tree merge too
+(`none` = the Go panic) -/
+theorem tree_merge_refuses (split : Nat) (t : BTree) (b : List (Key × Op × Nat)) (hb : t.Bounded)
+    (h : applyBatch t.toList b = none) : t.mergeBatch split b = none :=
+  (mergeBatch_spec split b t hb).2 h
+
+/-- tree_inv is preserved by `MergeAndSave` (for `splitCount ≥ 2`): ORDER (`BTree.Bounded`: leaves
+strictly sorted with a genuine stored prefix, separators strictly increasing and bounding their
+children) and COUNTS (`BTree.Counts`: no empty node below the root, at most `split` keys per leaf
+and offsets per tree node, a root tree node has at least two children).
+The byte-size clause is NOT preserved by the code (open findings KF-C10-2 / KF-C10-4: leaves and
+tree nodes above `maxNodeSize` are stored after merges with long keys / collapsing prefixes), so
+it is not part of this statement. -/
+theorem tree_inv_merge (split : Nat) (h2 : 2 ≤ split) (t t' : BTree) (b : List (Key × Op × Nat))
+    (hb : t.Bounded) (hc : t.Counts split) (h : t.mergeBatch split b = some t') :
+    t'.Bounded ∧ t'.Counts split :=
+  ⟨((mergeBatch_spec split b t hb).1 t' h).2, mergeBatch_counts h2 b t t' hc h⟩
+
+/-- end to end: a bulk-built tree (sorted input, production split range, keys that fit) followed
+by any number of accepted batches is ordered, within the count limits, and holds exactly the
+content of the ordered-map model -/
+theorem bulk_then_merge (split : Nat) (kvs : List KV) (bs : List (List (Key × Op × Nat)))
+    (hsort : Sorted kvs) (h2 : 2 ≤ split) (hs : split ≤ 100)
+    (hk : ∀ e ∈ kvs, e.1.length + 15 ≤ maxNodeSizeM) (t' : BTree)
+    (h : bs.foldlM (fun t b => BTree.mergeBatch split t b) (bulkBuild split kvs) = some t') :
+    t'.Bounded ∧ t'.Counts split ∧ bs.foldlM applyBatch kvs = some t'.toList := by
+  have h0 := tree_inv_bulk split kvs hsort h2 hs hk
+  have := foldl_merge_spec h2 bs (bulkBuild split kvs) t' h0.1 (RootLimits_counts _ h0.2) h
+  rw [bulk_build_content] at this
+  exact this
+
 /-- size invariant of bulk-built leaves (mirror of `leafBuilder.tryAdd/add/size` + `Builder.addLeaf`,
 compared leaf by leaf — key count and byte size — with the real Builder by the suite): for the
 production split (any `1 ≤ split ≤ 100`) and keys that fit a node on their own, every leaf the
@@ -121,6 +175,9 @@ example : applyBatch [([1], 5)] [([1], .add, 6)] = none := by decide
 example : (bulkBuild 2 [([1], 1), ([2], 2), ([3], 3), ([4], 4), ([5], 5)]).h = 2 := by decide
 example : (bulkBuild 2 [([1], 1), ([2], 2), ([3], 3), ([4], 4), ([5], 5)]).lookup [4] = some 4 := by
   decide
+example : ((bulkBuild 2 [([1], 1), ([2], 2), ([3], 3), ([4], 4), ([5], 5)]).mergeBatch 2
+    [([1], .del, 1), ([2], .del, 2), ([3, 0], .add, 9), ([3, 1], .add, 8)]).map (·.toList) =
+    some [([3], 3), ([3, 0], 9), ([3, 1], 8), ([4], 4), ([5], 5)] := by decide
 example : encodeLeaf ⟨1, [([7, 1], 5), ([7, 2, 3], 258)]⟩ =
     [2, 1, 0, 19, 0, 0, 0, 0, 5, 0, 20, 0, 0, 0, 1, 2, 0, 22, 7, 1, 2, 3] := by decide
 
